@@ -9,10 +9,18 @@ Decides (from the syntax trees of auth/auth/auth_utils.py and auth/auth/auth.py,
   R2  is_valid_username: same, body translated idiom by idiom (`not s`, startswith/endswith, `lit in s`, all(<char predicate>), a
       regex ...) and compared with [a-z0-9]+(-[a-z0-9]+)*.  The character predicates isascii/isdigit/islower are tabulated from
       the running interpreter for every code point.
+      Both translations (engines/strpred.py) also follow label-wise rewrites - re.split / str.split on a separator class followed
+      by all()/any()/a for loop with a per-label predicate (the language P (SEP P)*), the Unicode-aware str predicates
+      isalnum/isalpha/isdecimal/isnumeric/isidentifier/islower/isupper/isspace as code-point tables, `x == x.lower()` as the
+      language over the code points fixed by lower() - normalisation before the test (strip/lower/upper/replace/slices: the
+      PREIMAGE of the tested language, because the caller stores the unnormalised value), locals holding match objects, and the
+      regex flags ASCII / IGNORECASE / DOTALL.
   R3  every `INSERT INTO users` of the auth service is reached only after both validators accepted the very values inserted:
       check_valid_new_user leaves normally only through the accepting branch of is_valid_username(username), the INSERT is
       dominated by the call of check_valid_new_user, the call of the inserting closure is dominated by
       validate_credentials_secret_name_input(<the inserted secret name>), and no other INSERT INTO users exists in auth/.
+      A validator applied to a normalised copy (`is_valid_username(username.strip())`) while the raw variable is inserted is
+      decided through the preimage: the raw strings let through must still be exactly the specification language.
 Does not decide: rows written to `users` by deployment tooling outside the auth service (ci/bootstrap_create_accounts.py,
 gear.auth_utils.insert_user) and direct database access.
 """
@@ -33,9 +41,11 @@ META = dict(
          'directions, shortest counterexample on failure); the call structure around INSERT INTO users is decided by '
          'dominance on the statement CFG.  Every obligation is decided exhaustively over all strings of any length, which is '
          'the right level for a property quantified over all strings.',
-    note='Trusted: CPython ast and re._parser (regex syntax), the interpreter\'s own str predicate methods as the definition of '
-         'isascii/isdigit/islower, engines/relang.py + engines/strpred.py (cross-checked against the platform `re` on sampled '
-         'strings during development). Assumes the values reach the validators as `str` (check_valid_new_user tests isinstance) and '
+    note='Trusted: CPython ast and re._parser (regex syntax), the interpreter\'s own str methods as the definition of the character '
+         'predicates (isascii/isdigit/isalnum/...), of the case maps (lower/upper/casefold, tabulated per code point; the one '
+         'context-dependent image, final sigma, is only accepted when the language cannot tell the two images apart) and - for '
+         'IGNORECASE patterns only - the platform `re` asked about one-character items per code point; engines/relang.py + '
+         'engines/strpred.py (cross-checked against the platform `re` / the real str methods on sampled strings during development). Assumes the values reach the validators as `str` (check_valid_new_user tests isinstance) and '
          'that @transaction(db) runs the decorated closure body unchanged. Not decided: users rows written by tooling outside auth/.',
     technique='static analysis: AST-to-regular-language translation, DFA equivalence over a Unicode partition, CFG dominance',
     design_ref='DESIGN.md §3 C28',
@@ -64,7 +74,7 @@ def _show(s: Optional[str]) -> str:
     return 'none' if s is None else ascii(s)
 
 
-def _check_validator(ctx: Ctx, rule: str, m: pf.Module, fname: str, param_index: int, accept: str, spec: R.Lang, what: str, plural: str) -> None:
+def _check_validator(ctx: Ctx, rule: str, m: pf.Module, fname: str, param_index: int, accept: str, spec: R.Lang, what: str, plural: str) -> R.Lang:
     fn = m.func(fname)
     params = [a.arg for a in fn.args.posonlyargs + fn.args.args]
     ctx.need(len(params) > param_index, f'{fname}: expected a string parameter at position {param_index}')
@@ -72,13 +82,20 @@ def _check_validator(ctx: Ctx, rule: str, m: pf.Module, fname: str, param_index:
     L, tr = sp.function_language(m, fn, param, accept)
     # the partition is refined by the predicates a lowercase-name specification talks about, so that witnesses are representative
     cmp = R.compare(L, spec, extra=[R.NEWLINE, R.pred('str.isascii')])
-    uses = '; '.join(f"`{u['call']}` with pattern {u['pattern']!r} (mode {u['mode']})" for u in tr.regex_uses)
+    uses = '; '.join(f"`{u['call']}` with pattern {u['pattern']!r}" + (f" flags {u['flags']}" if u['flags'] else '') + f" (mode {u['mode']})"
+                     for u in tr.regex_uses)
     base = f'{m.rel}::{fname}'
+    how = f'; the decision is made by {uses}' if uses else ''
+    if cmp.only_a is not None and not cmp.only_a.isascii():
+        how += ('; the accepted string is not ASCII - the test is built from ' + ', '.join(tr.idioms[:8])
+                + ', and str.isalnum/isalpha/isdigit/islower, \\w, \\d and `x == x.lower()` hold for thousands of non-ASCII code points')
+    elif not uses:
+        how += '; the test is built from ' + ', '.join(tr.idioms[:8])
     detail = dict(cmp.describe(), idioms=tr.idioms, regex=[{k: u[k] for k in ('call', 'mode', 'pattern')} for u in tr.regex_uses],
                   specification=spec.label)
     ctx.check(cmp.only_a is None, rule, f'{base}::accepts only {what}',
               f'accepts {_show(cmp.only_a)}, which is not {what} (specification {spec.label})'
-              + (f'; the decision is made by {uses}' if uses else '')
+              + how
               + ('; `match` with `$` also succeeds just before one trailing newline - use fullmatch' if any(
                   u['mode'] == 'match' for u in tr.regex_uses) and cmp.only_a is not None and cmp.only_a.endswith('\n') else ''),
               m.path, fn.lineno, detail=detail)
@@ -87,6 +104,7 @@ def _check_validator(ctx: Ctx, rule: str, m: pf.Module, fname: str, param_index:
               m.path, fn.lineno, detail=detail)
     ctx.unit('validator_functions')
     ctx.unit('alphabet_classes', cmp.alphabet.n)
+    return L
 
 
 # --------------------------------------------------------------------------------------
@@ -143,8 +161,24 @@ def _no_handler_around(n: pf.Node) -> bool:
     return all(t.kind == 'raise-exit' or lab != 'exc' for t, lab in n.succ)
 
 
-def _check_rejecting_test(ctx: Ctx, m: pf.Module, fname: str, validator: str, param: str) -> None:
-    """fname leaves normally only when validator(param) was truthy."""
+def _raw_language(m: pf.Module, fn: pf.FuncDef, var: str, arg: ast.AST, L: R.Lang) -> Optional[Tuple[R.Lang, str]]:
+    """The validator with language L is applied to `arg`.  When arg is `var` itself or a normalised copy of it
+    (var.strip().lower(), ...): the language of the RAW values of var that pass, and the text of the normalisation ('' when none).
+    None when arg is something else."""
+    if isinstance(arg, ast.Name) and arg.id != var:
+        arg = pf.resolve_expr(fn, arg)
+    tr = sp.Translator(m, fn, var)
+    chain = tr.chain_of(arg)
+    if chain is None:
+        return None
+    if not chain:
+        return L, ''
+    return tr.preimage(L, chain), pf.nsrc(arg)
+
+
+def _check_rejecting_test(ctx: Ctx, m: pf.Module, fname: str, validator: str, param: str, L: R.Lang, spec: R.Lang) -> None:
+    """fname leaves normally only when validator(param) was truthy (validator(<normalised param>): only when the raw values
+    that pass are still exactly the specification language)."""
     fn = m.func(fname)
     g = pf.cfg(fn)
     cons = f'{m.rel}::{fname}::{validator}({param}) gates the normal exit'
@@ -158,8 +192,18 @@ def _check_rejecting_test(ctx: Ctx, m: pf.Module, fname: str, validator: str, pa
         while isinstance(e, ast.UnaryOp) and isinstance(e.op, ast.Not):
             neg = not neg
             e = e.operand
-        if isinstance(e, ast.Call) and pf.dotted(e.func) == validator and len(e.args) == 1 and not e.keywords \
-                and isinstance(e.args[0], ast.Name) and e.args[0].id == param:
+        if isinstance(e, ast.Call) and pf.dotted(e.func) == validator and len(e.args) == 1 and not e.keywords:
+            raw = _raw_language(m, fn, param, e.args[0], L)
+            if raw is None:
+                continue
+            if raw[1]:
+                cmp = R.compare(raw[0], spec, extra=[R.NEWLINE, R.pred('str.isascii')])
+                if not cmp.equal:
+                    w = cmp.only_a if cmp.only_a is not None else cmp.only_b
+                    ctx.bad('R3', cons, f'{fname} tests {validator}({raw[1]}) - a normalised copy - but the caller stores {param} as it was passed: '
+                            + (f'{_show(w)} passes the check and is inserted unchanged' if cmp.only_a is not None else f'the valid name {_show(w)} is refused'),
+                            m.path, n.lineno)
+                    return
             tests.append((n, neg))
     if not tests:
         mentions = [c for c in pf.calls_in(fn) if pf.dotted(c.func) == validator]
@@ -203,7 +247,7 @@ def _guarded(ctx: Ctx, m: pf.Module, fn: pf.FuncDef, target: ast.Call, var: str,
     guards = []
     for n in g.nodes:
         for c in pf.node_calls(n):
-            if is_guard(c, var):
+            if is_guard(c, var, fn):
                 ctx.need(_no_handler_around(n), f'{q}: `{pf.nsrc(c)[:70]}` is called inside a try/except; its rejection may be swallowed (shape not recognised)')
                 ctx.need(n.kind == 'stmt', f'{q}: `{pf.nsrc(c)[:70]}` is not a plain statement (shape not recognised)')
                 guards.append(n)
@@ -233,17 +277,43 @@ def _guarded(ctx: Ctx, m: pf.Module, fn: pf.FuncDef, target: ast.Call, var: str,
     return True, ''
 
 
-def _is_username_guard(c: ast.Call, var: str) -> bool:
-    return pf.dotted(c.func) == 'check_valid_new_user' and len(c.args) >= 2 and isinstance(c.args[1], ast.Name) and c.args[1].id == var \
+def _same_value(fn: pf.FuncDef, arg: ast.AST, var: str) -> bool:
+    """arg is the variable var, or a single-assignment local that is a plain copy of it."""
+    if isinstance(arg, ast.Name) and arg.id != var:
+        arg = pf.resolve_expr(fn, arg)
+    return isinstance(arg, ast.Name) and arg.id == var
+
+
+def _is_username_guard(c: ast.Call, var: str, fn: pf.FuncDef) -> bool:
+    return pf.dotted(c.func) == 'check_valid_new_user' and len(c.args) >= 2 and _same_value(fn, c.args[1], var) \
         and not any(k.arg == 'username' for k in c.keywords)
 
 
-def _is_secret_guard(c: ast.Call, var: str) -> bool:
-    return pf.dotted(c.func) == 'validate_credentials_secret_name_input' and len(c.args) == 1 and not c.keywords \
-        and isinstance(c.args[0], ast.Name) and c.args[0].id == var
+def _secret_guard(m: pf.Module, L: R.Lang, spec: R.Lang, notes: List[str]):
+    """Guard recogniser for validate_credentials_secret_name_input(<var or a normalised copy that lets exactly the same raw values
+    through>); a normalising call that lets other raw values through is not a guard and leaves a note for the report."""
+    def is_guard(c: ast.Call, var: str, fn: pf.FuncDef) -> bool:
+        if pf.dotted(c.func) != 'validate_credentials_secret_name_input' or len(c.args) != 1 or c.keywords:
+            return False
+        try:
+            raw = _raw_language(m, fn, var, c.args[0], L)
+        except AnalysisError:
+            raw = None
+        if raw is None:
+            return False
+        if not raw[1]:
+            return True
+        cmp = R.compare(raw[0], spec, extra=[R.NEWLINE, R.pred('str.isascii')])
+        if cmp.equal:
+            return True
+        w = cmp.only_a if cmp.only_a is not None else cmp.only_b
+        notes.append(f'`{pf.nsrc(c)}` validates a normalised copy while {var} itself is stored: '
+                     + (f'{_show(w)} passes and is inserted unchanged' if cmp.only_a is not None else f'the valid name {_show(w)} is refused'))
+        return False
+    return is_guard
 
 
-def _check_must_call(ctx: Ctx) -> None:
+def _check_must_call(ctx: Ctx, L_secret: R.Lang, L_user: R.Lang) -> None:
     m = pf.load(F_AUTH)
     mu = pf.load(F_UTILS)
     imps = m.imports()
@@ -273,17 +343,18 @@ def _check_must_call(ctx: Ctx) -> None:
             ctx.ok('R3', cons_base + '::secret name validated', 'no secret name is inserted at this site')
         else:
             ctx.need(isinstance(s_expr, ast.Name), f'{qual}: the inserted secret name is not a plain variable')
-            ok, where = _guarded(ctx, m, inner, call, s_expr.id, _is_secret_guard)
+            notes: List[str] = []
+            ok, where = _guarded(ctx, m, inner, call, s_expr.id, _secret_guard(m, L_secret, spec_secret_name(), notes))
             ctx.check(ok, 'R3', cons_base + '::secret name validated',
                       f'the INSERT INTO users in {qual} can run without a preceding validate_credentials_secret_name_input({s_expr.id}) '
-                      f'(no dominating call in {where}): the secret name is stored unvalidated', m.path, call.lineno)
+                      f'(no dominating call in {where}): the secret name is stored unvalidated' + ''.join('; ' + x for x in notes), m.path, call.lineno)
         ctx.unit('insert_sites')
 
     # --- check_valid_new_user really rejects invalid usernames
     cfn = m.func('check_valid_new_user')
     cparams = [a.arg for a in cfn.args.args]
     ctx.need(len(cparams) >= 2, 'check_valid_new_user: parameter list changed')
-    _check_rejecting_test(ctx, m, 'check_valid_new_user', 'is_valid_username', cparams[1])
+    _check_rejecting_test(ctx, m, 'check_valid_new_user', 'is_valid_username', cparams[1], L_user, spec_username())
 
     # --- closed world: no other INSERT INTO users in the auth service
     others = []
@@ -315,10 +386,10 @@ def run(ctx: Ctx) -> None:
     ctx.rule('R3', 'every INSERT INTO users in auth/ is dominated by check_valid_new_user (which returns only if is_valid_username) and by '
                    'validate_credentials_secret_name_input on the inserted values; no other INSERT INTO users in auth/', 4)
     ctx.assume('the validated values are str (check_valid_new_user raises InvalidType otherwise; a None secret name is stored as NULL)')
-    ctx.assume('str.isascii/isdigit/islower of the running CPython define the character classes (tabulated for every code point)')
+    ctx.assume('the str predicate and case-mapping methods of the running CPython define the character classes (tabulated for every code point)')
     ctx.assume('@transaction(db) executes the decorated closure body as written (possibly more than once)')
     mu = pf.load(F_UTILS)
     ctx.unit('files', 2)
-    _check_validator(ctx, 'R1', mu, 'validate_credentials_secret_name_input', 0, 'no-raise', spec_secret_name(), 'a lowercase RFC-1123 name', 'lowercase RFC-1123 names')
-    _check_validator(ctx, 'R2', mu, 'is_valid_username', 0, 'bool', spec_username(), 'a valid username', 'valid usernames')
-    _check_must_call(ctx)
+    l_secret = _check_validator(ctx, 'R1', mu, 'validate_credentials_secret_name_input', 0, 'no-raise', spec_secret_name(), 'a lowercase RFC-1123 name', 'lowercase RFC-1123 names')
+    l_user = _check_validator(ctx, 'R2', mu, 'is_valid_username', 0, 'bool', spec_username(), 'a valid username', 'valid usernames')
+    _check_must_call(ctx, l_secret, l_user)
